@@ -22,6 +22,7 @@ public:
     void bvisit(const Mul &x);
     void bvisit(const Relational &x);
     void bvisit(const Pow &x);
+    void bvisit(const Infty &x);
     template <typename Poly>
     void bvisit_upoly(const Poly &x)
     {
